@@ -12,7 +12,12 @@ const LN2: f64 = std::f64::consts::LN_2;
 
 fn tags(d: usize) -> Vec<usize> {
     // distinct, non-contiguous, not sorted
-    (0..d).map(|i| (i * 7 + 3) % 31 + if i % 2 == 0 { 40 } else { 0 }).collect()
+    if d <= 31 {
+        return (0..d).map(|i| (i * 7 + 3) % 31 + if i % 2 == 0 { 40 } else { 0 }).collect();
+    }
+    // larger degrees: a permutation of 0..p (p prime > d) shifted for even positions
+    let p = (d + 1..).find(|&x| (2..x).take_while(|q| q * q <= x).all(|q| x % q != 0)).unwrap();
+    (0..d).map(|i| (i * 7 + 3) % p + if i % 2 == 0 { 2 * p } else { 0 }).collect()
 }
 
 #[derive(Copy, Clone, PartialEq, Eq, Debug)]
@@ -238,6 +243,68 @@ fn float_vectors(alpha: &[f64], thorough: bool) -> Vec<Vec<f64>> {
                         i /= kk;
                     }
                     out.push(v);
+                }
+            }
+        }
+    }
+    // degrees just past 16, 32, 64, 128, 256: a background value with at most two deviating positions
+    // (positions include d-33 and d-32, where a 32-entry window would begin)
+    let bigs: Vec<usize> = if thorough { vec![17, 31, 32, 33, 34, 63, 64, 65, 66, 129, 257, 513] } else { vec![17, 33, 34, 65, 129] };
+    for &d in &bigs {
+        let mut places = vec![0usize, 1, d / 2, d - 2, d - 1];
+        if d >= 34 {
+            places.extend([d - 33, d - 32]);
+        }
+        places.sort_unstable();
+        places.dedup();
+        let sub = [0.0, -1.3, 4.0, alpha[alpha.len() - 1]];
+        let bgs: &[f64] = if d >= 65 && !thorough { &[1.3, -0.2] } else { &[1.3, -1.3, 4.0, -0.2] };
+        for &bg in bgs {
+            out.push(vec![bg; d]);
+            for (ia, &pa) in places.iter().enumerate() {
+                for &xa in &sub {
+                    let mut v = vec![bg; d];
+                    v[pa] = xa;
+                    out.push(v.clone());
+                    for &pb in places.iter().skip(ia + 1) {
+                        for &xb in &sub {
+                            let mut w = v.clone();
+                            w[pb] = xb;
+                            out.push(w);
+                        }
+                    }
+                }
+            }
+        }
+    }
+    out
+}
+
+fn i8_big(thorough: bool) -> Vec<Vec<i8>> {
+    let mut out = Vec::new();
+    let bigs: Vec<usize> = if thorough { vec![17, 31, 32, 33, 34, 63, 64, 65, 66, 129, 257, 513] } else { vec![17, 33, 34, 65] };
+    for &d in &bigs {
+        let mut places = vec![0usize, 1, d / 2, d - 2, d - 1];
+        if d >= 34 {
+            places.extend([d - 33, d - 32]);
+        }
+        places.sort_unstable();
+        places.dedup();
+        let sub: [i8; 4] = [-127, 99, 0, -1];
+        for &bg in &[127i8, -100, 1, -37] {
+            out.push(vec![bg; d]);
+            for (ia, &pa) in places.iter().enumerate() {
+                for &xa in &sub {
+                    let mut v = vec![bg; d];
+                    v[pa] = xa;
+                    out.push(v.clone());
+                    for &pb in places.iter().skip(ia + 1) {
+                        for &xb in &sub {
+                            let mut w = v.clone();
+                            w[pb] = xb;
+                            out.push(w);
+                        }
+                    }
                 }
             }
         }
@@ -536,7 +603,8 @@ pub fn run(run: &Run) -> i32 {
             .reduce(Acc::new, Acc::merge);
         acc = acc.merge(a2);
         // 8-bit: degrees 4..30 by count profile
-        let profs = i8_profiles(run.thorough());
+        let mut profs = i8_profiles(run.thorough());
+        profs.extend(i8_big(run.thorough()));
         extra.insert("i8_profiles".into(), json!(profs.len()));
         let chunks: Vec<&[Vec<i8>]> = profs.chunks(512).collect();
         let a3 = chunks
@@ -556,7 +624,7 @@ pub fn run(run: &Run) -> i32 {
         run,
         acc,
         Coverage {
-            rule: "8-bit types (16): EVERY vector in [-127,127]^d for d = 2 and d = 3, and for d in {4,5,8,30} (thorough: 4,5,6,8,13,20,30) every multiset over 3-value sub-alphabets of {+-127,+-100,+-99,+-1,0,50,-37} in two orderings. Float types (8): full power of a 13-value alphabet for d <= 4 (thorough 5), and for larger d up to 30 every vector with <= 3 positions deviating from a common background. Source tags are distinct, non-contiguous and unsorted. Each arithmetic object is reused across many nodes in an order that mixes the degrees (small after large and large after small). Oracles: routing, sign parity, magnitude bound, exact box-plus (phi/tanh/A-Min*), [exact-(d-2)ln2, exact] (min* approximations), 0.5 unit per table lookup from the real-valued rule (8-bit), partial-hard-limit promotion rule, never -128. Float tolerance is per instance from a first-order conditioning analysis; instances whose tolerance exceeds 0.1 are counted as ill-conditioned and judged only on routing/finiteness/magnitude cap. Non-trivial = at least one well-conditioned output (float) / no zero input (8-bit).".into(),
+            rule: "8-bit types (16): EVERY vector in [-127,127]^d for d = 2 and d = 3, and for d in {4,5,8,30} (thorough: 4,5,6,8,13,20,30) every multiset over 3-value sub-alphabets of {+-127,+-100,+-99,+-1,0,50,-37} in two orderings. Float types (8): full power of a 13-value alphabet for d <= 4 (thorough 5), and for larger d up to 30 every vector with <= 3 positions deviating from a common background; both families also at d = 17, 33, 34, 65, 129 (float) / 65 (8-bit) (thorough 31..66, 257, 513) with <= 2 deviating positions (including positions d-33 and d-32). Source tags are distinct, non-contiguous and unsorted. Each arithmetic object is reused across many nodes in an order that mixes the degrees (small after large and large after small). Oracles: routing, sign parity, magnitude bound, exact box-plus (phi/tanh/A-Min*), [exact-(d-2)ln2, exact] (min* approximations), 0.5 unit per table lookup from the real-valued rule (8-bit), partial-hard-limit promotion rule, never -128. Float tolerance is per instance from a first-order conditioning analysis; instances whose tolerance exceeds 0.1 are counted as ill-conditioned and judged only on routing/finiteness/magnitude cap. Non-trivial = at least one well-conditioned output (float) / no zero input (8-bit).".into(),
             exhaustive: true,
             extra,
             graph: None,
